@@ -110,22 +110,45 @@ def check_query(sub, st, pos, q, E, prods, hashes, ev=None, render=True):
             sub.count(d + ':disagreed_with_python')
             sigs[d] = J.signatures(st['eng'][d], st, pos, q, E, mm)
     base = sigs.get('sqlite')
+    sq = st['eng']['sqlite']
+    for d in MODEL:
+        if d not in sigs: continue
+        eng = st['eng'][d]
+        for key, (sig, m, rid, M) in sorted(sigs[d].items(), key=lambda kv: (kv[1][0], str(kv[0]))):
+            if base is not None and key in base:
+                sub.count(d + ':same_failure_as_sqlite(C01)'); continue
+            note = ''
+            if base is None and M is not None and rid is not None and J.fails_as_projection(sq, st, M, rid) and J.expr_sig(sq, st, M, rid) == sig:
+                # SQLite refuses the whole query, but gets the blamed sub-expression wrong in the same way: C01's finding
+                sub.count(d + ':same_failure_as_sqlite(C01)'); continue
+            if M is not None and rid is not None and J.fails_as_projection(sq, st, M, rid):
+                # the blamed sub-expression fails on SQLite as well (C01's), yet only this dialect's query disagrees: look above it
+                alt = J.reattribute(eng, sq, st, E, M, rid) if M is not E else []
+                if alt:
+                    for M2, sig2 in alt:
+                        sub.count(d + ':dialect_specific_disagreement'); sub.count(d + ':reattributed_above_a_shared_failure')
+                        sub.violation('%s: %s' % (d, sig2), case(d, pos, q, E, sql=outs[d].sql, mismatch=repr(m), row=rid, signature=sig2, reattributed_from=sig),
+                                      '%s [%s] on %s -> %r; blamed %s after replacing the sub-expression %s (fails alike on SQLite) by a plain operand'
+                                      % (text, pos, d, m, src(M2), src(M)))
+                    continue
+                note = ' (the sub-expression fails on SQLite too; its value or its effect in this query differs)'
+                sig = sig + ' / differently from SQLite in: ' + qx.op_skeleton(E)
+            sub.count(d + ':dialect_specific_disagreement')
+            sub.violation('%s: %s' % (d, sig), case(d, pos, q, E, sql=outs[d].sql, mismatch=repr(m), row=rid, signature=sig),
+                          '%s [%s] on %s -> %r%s%s' % (text, pos, d, m, '' if base is not None else ' (SQLite refuses the query)', note))
     if base:
-        for sig, (m, rid) in sorted(base.items()):
-            agree = [d for d in MODEL if d in sigs and sig not in sigs[d]]
+        for key, (sig, m, rid, M) in sorted(base.items(), key=lambda kv: (kv[1][0], str(kv[0]))):
+            agree = [d for d in MODEL if d in sigs and key not in sigs[d]]
+            if E is not None and rid is not None:
+                # a dialect that gets a sub-expression wrong on that row agrees with Python by compensation only: not counted as agreeing
+                clean = [d for d in agree if not J.failing_part(st['eng'][d], st, E, rid)]
+                if len(clean) < len(agree): sub.count('sqlite:sqlite_only_disagreement_compensated_on_a_dialect')
+                agree = clean
             if not agree: continue
             sub.count('sqlite:sqlite_only_disagreement')
             sub.violation('sqlite differs (%s agree%s with Python): %s' % (' and '.join(agree), 's' if len(agree) == 1 else '', sig),
                           case(agree[0], pos, q, E, sql=outs[agree[0]].sql, mismatch=repr(m), row=rid, signature=sig, sqlite_only=agree),
                           '%s [%s] on sqlite -> %r; %s agree(s) with Python' % (text, pos, m, ', '.join(agree)))
-    for d in MODEL:
-        if d not in sigs: continue
-        for sig, (m, rid) in sorted(sigs[d].items()):
-            if base is not None and sig in base:
-                sub.count(d + ':same_signature_as_sqlite(C01)'); continue
-            sub.count(d + ':dialect_specific_disagreement')
-            sub.violation('%s: %s' % (d, sig), case(d, pos, q, E, sql=outs[d].sql, mismatch=repr(m), row=rid, signature=sig),
-                          '%s [%s] on %s -> %r%s' % (text, pos, d, m, '' if base is not None else ' (SQLite refuses the query)'))
     if render:
         for d in RENDER:
             sub.count(d + ':queries')
@@ -276,12 +299,42 @@ def check_extra(sub, st, hashes):
     for name, q, fes in c01.extra_queries():
         check_query(sub, st, 'form ' + name, q, None, ['form ' + name], hashes)
 
+def check_rowforms(sub, st, hashes):
+    """COUNT(DISTINCT row) forms: an entity with a composite primary key (own tiny schema and data)"""
+    eng = {'sqlite': L.SqliteEngine(define=L.ck_define, load=L.ck_load)}
+    for d in MODEL: eng[d] = L.ModelEngine(d, define=L.ck_define, load=L.ck_load)
+    for f in L.ck_queries():
+        outs = {d: J.run_on(eng[d], st, f) for d in L.DIALECTS}
+        for d in L.DIALECTS:
+            o = outs[d]
+            sub.count(d + ':queries')
+            if o.kind == 'refused': sub.count(d + ':refused'); continue
+            if o.kind == 'undecided': sub.count(d + ':undecided'); sub.count('%s:undecided:%s' % (d, o.why)); sub.count('other:%s:form COUNT(DISTINCT row)' % d); continue
+            if o.kind in ('broken', 'dialect_refused'):
+                sub.count(d + ':not_executable' if o.kind == 'broken' else d + ':refused_by_dialect_model')
+                sub.violation('%s: form COUNT(DISTINCT row): %s' % (d, 'SQL text does not run under the dialect model' if o.kind == 'broken' else 'server rejects the statement'),
+                              case(d, 'rowform', f, None, sql=o.sql), '%s -> %s' % (f.source(), o.why))
+                continue
+            sub.count(d + ':judged'); sub.count('judged:%s:form COUNT(DISTINCT row)' % d)
+            hashes.add(_hash(d, f.source()))
+            got = set(tuple(qx.canon(v) for v in r) for r in o.rows)
+            ref = set(tuple(qx.canon(v) for v in r) for r in f.expect)
+            if got == ref and len(o.rows) == len(got): sub.count(d + ':agreed'); continue
+            sub.count(d + ':disagreed_with_python')
+            if d == 'sqlite': continue
+            if outs['sqlite'].kind == 'answered' and set(tuple(qx.canon(v) for v in r) for r in outs['sqlite'].rows) == got:
+                sub.count(d + ':same_signature_as_sqlite(C01)'); continue
+            sub.count(d + ':dialect_specific_disagreement')
+            sub.violation('%s: form COUNT(DISTINCT row): %s' % (d, f.name), case(d, 'rowform', f, None, sql=o.sql, got=repr(sorted(got))[:300], expected=repr(sorted(ref))[:300]),
+                          '%s on %s -> %s, Python gives %s' % (f.source(), d, repr(sorted(got))[:200], repr(sorted(ref))[:200]))
+
 def work_extra(_):
     st = state()
     sub = core.Sub()
     hashes = set()
     check_extra(sub, st, hashes)
     check_forms(sub, st, hashes)
+    check_rowforms(sub, st, hashes)
     d = sub.dump()
     d['hashes'] = sorted(hashes)
     return d
@@ -323,7 +376,8 @@ def run(ctx):
                       refused_by_dialect_model_where_python_raises_too=c.get(d + ':refused_by_dialect_model_where_python_raises_too', 0),
                       not_executable=c.get(d + ':not_executable', 0), row_comparisons=c.get(d + ':row_comparisons', 0),
                       dialect_specific_disagreements=c.get(d + ':dialect_specific_disagreement', 0),
-                      same_signature_as_sqlite=c.get(d + ':same_signature_as_sqlite(C01)', 0),
+                      same_failure_as_sqlite=c.get(d + ':same_failure_as_sqlite(C01)', 0) + c.get(d + ':same_signature_as_sqlite(C01)', 0),
+                      reattributed_above_a_shared_failure=c.get(d + ':reattributed_above_a_shared_failure', 0),
                       decided_share_percent=int(100.0 * c.get(d + ':judged', 0) / max(1, q - ref)),
                       undecided_by_reason={k.split(':', 2)[2]: v for k, v in sorted(c.items()) if k.startswith(d + ':undecided:')},
                       refused_by_dialect_model_by_reason={k.split(':', 2)[2]: v for k, v in sorted(c.items()) if k.startswith(d + ':refused_by_dialect_model:')},
@@ -363,6 +417,11 @@ def run(ctx):
 def replay(ctx, case):
     st = state()
     d = case['dialect']
+    if case.get('position') == 'rowform':
+        sub = core.Sub()
+        check_rowforms(sub, st, set())
+        for sig, v in sorted(sub.found.items()): print('found   :', sig, '|', v['message'][:300])
+        return not any(k.startswith(d + ': form COUNT(DISTINCT row)') for k in sub.found)
     if case.get('form') and not case.get('query'):
         f = [f for f in forms() if f.name == case['form']]
         if not f: print('unknown form'); return True
